@@ -158,10 +158,9 @@ class Ctx:
         ctx = self
 
         def f(*args):
-            ns = ctx.namespace(dict(zip(formals, args)))
-            if "self" in ctx._cur_env:
-                ns.setdefault("self", ctx._cur_env["self"])
-            return eval(code, ns)
+            env = {k: v for k, v in ctx._cur_env.items() if k in ("self", "root")}
+            env.update(zip(formals, args))
+            return eval(code, ctx.namespace(env))
         return f
 
     _cur_env: Dict[str, Any] = {}
